@@ -12,8 +12,8 @@ LEAN_MODULES = ["Sonic.Props.C10", "Sonic.Props.C11"]
 REQUIRED_THEOREMS = ["Sonic.Props.C10." + n for n in ["C10_agree", "C10_success_iff", "C10_skipString_seq", "C10_skipContainer_seq",
                                                          "C10_skipOne_value", "C10_skipSpaceSafe_exact", "C10_getNextToken_exact", "C10_parse_on_demand",
                                                          "C10_parse_on_demand_width"]]
-CONFIGS = [("avx2", "prod"), ("sse", "prod"), ("avx2", "san"), ("sse", "san")]
-CONFIGS_THOROUGH = CONFIGS + [("dyn", "prod")]
+CONFIGS = [("avx2", "prod"), ("sse", "prod"), ("avx2", "san"), ("sse", "san"), ("dyn", "prod")]
+CONFIGS_THOROUGH = CONFIGS + [("dyn", "san")]
 RULE = ("valid JSON texts from the type-directed generator (keys whose raw spelling differs from the decoded one, strings containing "
         "brackets/quotes/commas, duplicate keys, empty containers, whitespace runs, nesting), each shifted by 0..63 leading spaces; paths: "
         "every existing path of the document (enumerated from the text's structure) plus missing key, index = size, size+1, -1, wrong-kind "
